@@ -224,11 +224,42 @@ Proof. exact BundleSigBase.unsigned_uncovered. Qed.
 Print Assumptions unsigned_uncovered.
 
 (* ==== completeness: what the signer produced verifies ========================================== *)
+(* AddPayloadIntegrity succeeds exactly on an exchange without any Digest value (not
+   even an empty one) and a record size 1..16384 (what every verifier accepts), and
+   then returns the MI-encoded exchange; otherwise it returns an error *)
 Theorem add_payload_integrity_ok : forall (H256 : bytes -> bytes) (x : bexchange) (rs : N),
-  1 <= rs -> hdr_get (bx_hdr x) (s2b "Digest") = [] ->
+  1 <= rs -> rs <= 16384 -> hdr_values (bx_hdr x) (s2b "Digest") = [] ->
   add_payload_integrity H256 x rs = Ok (with_integrity H256 x rs, integrity_identifier D03).
 Proof. exact BundleSigCover.add_payload_integrity_ok. Qed.
 Print Assumptions add_payload_integrity_ok.
+
+Theorem add_payload_integrity_ok_inv : forall (H256 : bytes -> bytes) (x : bexchange) (rs : N)
+    (x' : bexchange) (integ : bytes),
+  add_payload_integrity H256 x rs = Ok (x', integ) ->
+  hdr_values (bx_hdr x) (s2b "Digest") = [] /\ 1 <= rs /\ rs <= 16384 /\
+  x' = with_integrity H256 x rs /\ integ = integrity_identifier D03.
+Proof. exact BundleSigCover.add_payload_integrity_ok_inv. Qed.
+Print Assumptions add_payload_integrity_ok_inv.
+
+Theorem add_payload_integrity_ok_iff : forall (H256 : bytes -> bytes) (x : bexchange) (rs : N)
+    (x' : bexchange) (integ : bytes),
+  add_payload_integrity H256 x rs = Ok (x', integ) <->
+  hdr_values (bx_hdr x) (s2b "Digest") = [] /\ 1 <= rs /\ rs <= 16384 /\
+  x' = with_integrity H256 x rs /\ integ = integrity_identifier D03.
+Proof. exact BundleSigCover.add_payload_integrity_ok_iff. Qed.
+Print Assumptions add_payload_integrity_ok_iff.
+
+Theorem add_payload_integrity_refuses : forall (H256 : bytes -> bytes) (x : bexchange) (rs : N),
+  hdr_values (bx_hdr x) (s2b "Digest") <> [] \/ rs < 1 \/ 16384 < rs ->
+  add_payload_integrity H256 x rs = Err.
+Proof. exact BundleSigCover.add_payload_integrity_refuses. Qed.
+Print Assumptions add_payload_integrity_refuses.
+
+Theorem add_payload_integrity_ok_or_err : forall (H256 : bytes -> bytes) (x : bexchange) (rs : N),
+  add_payload_integrity H256 x rs = Err \/
+  add_payload_integrity H256 x rs = Ok (with_integrity H256 x rs, integrity_identifier D03).
+Proof. exact BundleSigCover.add_payload_integrity_ok_or_err. Qed.
+Print Assumptions add_payload_integrity_ok_or_err.
 
 (* one signer's vouched subset is accepted inside its window *)
 Theorem signer_subset_verifies : forall (H256 : bytes -> bytes) (x509_key : bytes -> option (option N))
@@ -255,13 +286,38 @@ Theorem new_verifier_accepts : forall (H256 : bytes -> bytes) (x509_key : bytes 
 Proof. exact BundleSigCover.new_verifier_accepts. Qed.
 Print Assumptions new_verifier_accepts.
 
-(* MAIN.  ss0 = NewSigner; ss = ss0 after AddExchange of every covered exchange
-   (each the result of AddPayloadIntegrity, record size 1..16384, on an exchange
-   without a Digest header); signed = Encode ss sits in the i-th vouched subset,
-   which points at the signer's leaf.  If NewVerifier accepts sigs at the given
-   time, a covered exchange verifies: ORIGINAL body, the signer's OWN leaf -
-   unless an earlier subset already lists its URL (first match wins). *)
+(* MAIN.  ss0 = NewSigner; ss = ss0 after AddExchange of every covered exchange;
+   (x', integ) is what AddPayloadIntegrity returned for x with record size rs and is
+   among them; signed = Encode ss sits in the i-th vouched subset, which points at
+   the signer's leaf.  If NewVerifier accepts sigs at the given time, the covered
+   exchange verifies: ORIGINAL body, the signer's OWN leaf - unless an earlier
+   subset already lists its URL (first match wins).  No premise on rs or on the
+   Digest header: AddPayloadIntegrity's success implies them
+   (add_payload_integrity_ok_inv). *)
 Theorem covered_verifies : forall (H256 : bytes -> bytes),
+  (forall m, List.length (H256 m) = 32%nat) -> (forall m, wfb (H256 m)) ->
+  forall (x509_key : bytes -> option (option N)) (sig_ok : N -> bytes -> bytes -> bool)
+    (certs : list augcert) (validity : bytes) (date duration : Z)
+    (ss0 ss : signed_subset) (xs : list (bexchange * bytes)) (signed : bytes)
+    (sigs : signatures) (i : nat) (v : vouched) (leaf : augcert)
+    (tsec tnsec : Z) (ver : bversion) (vss : list (signed_subset * augcert * bool))
+    (x x' : bexchange) (rs : N) (integ : bytes),
+  new_signer H256 certs validity date duration = Ok ss0 ->
+  add_all H256 ss0 xs = Ok ss -> ss_ok ss -> encode_subset ss = Ok signed ->
+  nth_error (sg_vouched sigs) i = Some v -> vs_signed v = signed ->
+  nth_error (sg_auth sigs) (N.to_nat (vs_authority v)) = Some leaf ->
+  new_verifier H256 x509_key sig_ok sigs tsec tnsec ver = Ok vss ->
+  existsb (fun e => snd e) vss = false ->
+  add_payload_integrity H256 x rs = Ok (x', integ) ->
+  In (x', integ) xs ->
+  Forall (fun e => ~ lists_url (bx_url x) e) (firstn i vss) ->
+  verify_exchange H256 vss x' = VxOk (bx_body x) (ac_cert leaf).
+Proof. exact BundleSigCover.covered_verifies. Qed.
+Print Assumptions covered_verifies.
+
+(* the underlying statement about with_integrity (a pure function, which does not
+   check anything): here the three conditions are premises *)
+Theorem covered_verifies_gen : forall (H256 : bytes -> bytes),
   (forall m, List.length (H256 m) = 32%nat) -> (forall m, wfb (H256 m)) ->
   forall (x509_key : bytes -> option (option N)) (sig_ok : N -> bytes -> bytes -> bool)
     (certs : list augcert) (validity : bytes) (date duration : Z)
@@ -279,8 +335,8 @@ Theorem covered_verifies : forall (H256 : bytes -> bytes),
   In (with_integrity H256 x rs, integrity_identifier D03) xs ->
   Forall (fun e => ~ lists_url (bx_url x) e) (firstn i vss) ->
   verify_exchange H256 vss (with_integrity H256 x rs) = VxOk (bx_body x) (ac_cert leaf).
-Proof. exact BundleSigCover.covered_verifies. Qed.
-Print Assumptions covered_verifies.
+Proof. exact BundleSigCover.covered_verifies_gen. Qed.
+Print Assumptions covered_verifies_gen.
 
 (* ==== writing and re-reading the signatures section ============================================ *)
 (* sigs_ok: every authority DER is accepted by x509.ParseCertificate (x509_ok),
@@ -518,27 +574,28 @@ Example ex_zero_pairs_not_read_back :
   end.
 Proof. vm_compute. reflexivity. Qed.
 
-(* FINDING (model of the code as it stands): AddPayloadIntegrity tests
-   Header.Get("Digest") != "", so an exchange that already carries an EMPTY
-   Digest header value passes, Add appends the real digest as a second value,
-   and VerifyExchange (which reads the first value) then fails with "digest
-   response header not present": signing succeeds, the exchange never
-   verifies.  Hence "no Digest header" in covered_verifies is
-   hdr_values ... = [], not hdr_get ... = []. *)
+(* REPAIRED FINDING (was covered_verifies_needs_no_digest_key_refuted).
+   AddPayloadIntegrity used to test Header.Get("Digest") != "", so an exchange that
+   already carried an EMPTY Digest value passed, Add appended the real digest as a
+   second value, and VerifyExchange (which reads the first value) failed: signing
+   succeeded, the exchange never verified.  It tests len(Header.Values("Digest")) now:
+   refused.  Record sizes no verifier accepts (0, > 16384) are refused as well. *)
 Definition x_empty_digest : bexchange :=
   {| bx_url := s2b "https://b.example/two"; bx_status := 200%Z;
      bx_hdr := [(s2b "Digest", [[]])]; bx_body := s2b "second" |}.
-Example covered_verifies_needs_no_digest_key_refuted :
+Example ex_empty_digest_refused :
   hdr_get (bx_hdr x_empty_digest) (s2b "Digest") = [] /\
-  match run_signer None [leafB] 66 "https://b.example/validity" x_empty_digest with
-  | Ok (sigs, x') =>
-      match new_verifier sha256 toy_key toy_ok sigs (date0 + 5) 0 BV2 with
-      | Ok vss => verify_exchange sha256 vss x' = VxErr
-      | _ => False
-      end
-  | _ => False
-  end.
-Proof. vm_compute. split; reflexivity. Qed.
+  hdr_values (bx_hdr x_empty_digest) (s2b "Digest") = [[]] /\
+  add_payload_integrity sha256 x_empty_digest 16 = Err /\
+  run_signer None [leafB] 66 "https://b.example/validity" x_empty_digest = Err.
+Proof. vm_compute. repeat split. Qed.
+
+Example ex_record_sizes :
+  add_payload_integrity sha256 x2 0 = Err /\
+  add_payload_integrity sha256 x2 16385 = Err /\
+  add_payload_integrity sha256 x2 16384 = Ok (with_integrity sha256 x2 16384, integrity_identifier D03) /\
+  add_payload_integrity sha256 x2 1 = Ok (with_integrity sha256 x2 1, integrity_identifier D03).
+Proof. vm_compute. repeat split. Qed.
 
 (* the hash-format hypotheses of covered_verifies hold for SHA-256 in the form
    needed on any concrete input; a toy hash satisfies them for all inputs *)
